@@ -461,6 +461,11 @@ def run(ctx):
     ctx.guarded('C14-D8', 'correlators@hidden-state', hiddenstate.check, ctx, 'C14-D8', mod, [q for q, _ in mod.functions() if q.count('.') <= 1], 'the returned correlator')
     ctx.guarded('C14-D6', 'correlators.py@naming', d6_naming, ctx, mod)
     ctx.guarded('C14-D7', 'correlators.py@operators', d7_operators, ctx, mod)
+    from .. import unusedparams
+    ctx.rule('C14-D9', 'every accepted option is read (no silently ignored parameter)')
+    for mn_ in ('correlators',):
+        ctx.guarded('C14-D9', mn_ + '@parameters', unusedparams.check, ctx, 'C14-D9', ctx.repo.mod(mn_))
+
 
 
 SELFTEST = [
